@@ -89,7 +89,7 @@ Definition E_BATCH : N := 7.
 Definition E_BATCHOP : N := 8.      (* BatchOperationError: an element failed after earlier ones were stored *)
 
 (* mutators of stored vectors (ids used by the translator's invalidation table) *)
-Definition M_STORE : N := 0.          (* store_embedding (also each element of batch_store_embeddings) *)
+Definition M_STORE : N := 0.          (* store_embedding *)
 Definition M_DELETE : N := 1.         (* delete_embedding *)
 Definition M_STORE_META : N := 2.     (* store_embedding_with_metadata *)
 Definition M_BATCH_DELETE : N := 3.   (* batch_delete_embeddings *)
@@ -97,7 +97,8 @@ Definition M_CLEAR : N := 4.          (* clear *)
 Definition M_COLL_STORE : N := 5.     (* store_in_collection(_with_metadata) *)
 Definition M_COLL_DELETE : N := 6.    (* delete_from_collection *)
 Definition M_DELETE_COLL : N := 7.    (* delete_collection *)
-Definition mutators : list N := [0; 1; 2; 3; 4; 5; 6; 7].
+Definition M_BATCH_STORE : N := 8.    (* batch_store_embeddings: is every element written through an invalidating store *)
+Definition mutators : list N := [0; 1; 2; 3; 4; 5; 6; 7; 8].
 
 Record coll := Co {
   data : list (N * vec);                 (* key -> vector as get_embedding returns it *)
@@ -218,7 +219,7 @@ Fixpoint batch_put (s : st) (kvs : list (N * vec)) (n : N) : st * out :=
   match kvs with
   | [] => (s, RNum n)
   | kv :: r => if too_long (snd kv) then (s, RErr E_BATCHOP)
-               else batch_put (put_vec s 0 M_STORE (fst kv) (snd kv)) r (n + 1)
+               else batch_put (put_vec s 0 M_BATCH_STORE (fst kv) (snd kv)) r (n + 1)
   end.
 
 Definition step (s : st) (o : op) : st * out :=
